@@ -172,12 +172,13 @@ def is_extbase(b):
 class Explorer:
     """explores one body; `purity` is a Purity oracle (see models.py) or None"""
 
-    def __init__(self, facts, body, purity=None, inline=True, opaque=()):
+    def __init__(self, facts, body, purity=None, inline=True, opaque=(), expand=()):
         self.facts = facts
         self.body = body
         self.purity = purity
         self.inline = inline
         self.opaque = set(opaque)       # callee names never inlined
+        self.expand = set(expand)       # anchor functions a rule asks to see through (expanded path by path although they are named)
         self.paths = []
         self.loops = body.loops()
         self.loop_havoc = {h: self._loop_writes(blocks) for h, blocks in self.loops.items()}
@@ -872,15 +873,15 @@ class Explorer:
         """a local, loop-free helper with branches that no rule knows by name: expanded path by path, so that extracting a
         helper function out of an anchor does not change what the rules see"""
         from facts import callee_name
-        if not self.inline or fr.depth >= 2:
+        if not self.inline or fr.depth >= (3 if self.expand else 2):
             return None
         name = callee_name(t)
         cb = self.facts.bodies.get(name)
-        if cb is None or name in CANON_PARAMS or name in self.ATOM_FUNCS or any(name.startswith(o) for o in self.opaque):
+        if cb is None or (name in CANON_PARAMS and name not in self.expand) or name in self.ATOM_FUNCS or any(name.startswith(o) for o in self.opaque):
             return None
         if (cb.j.get('impl') or {}).get('auto_derived') or cb.j.get('kind') == 'Closure':
             return None
-        if is_straight_line(cb) or cb.loops() or len(cb.blocks) > 80 or t['target'] is None:
+        if is_straight_line(cb) or cb.loops() or len(cb.blocks) > (250 if name in self.expand else 80) or t['target'] is None:
             return None
         f = fr
         while f is not None:
